@@ -13,6 +13,7 @@ package sqlx_test
 
 import (
 	"bytes"
+	"context"
 	"database/sql"
 	"database/sql/driver"
 	"errors"
@@ -59,24 +60,38 @@ var c11LeafTypes = map[string]reflect.Type{
 	"bytes": reflect.TypeOf([]byte(nil)), "time": reflect.TypeOf(time.Time{}),
 	"nullstring": reflect.TypeOf(sql.NullString{}), "nullint64": reflect.TypeOf(sql.NullInt64{}),
 	"nullfloat64": reflect.TypeOf(sql.NullFloat64{}), "nullbool": reflect.TypeOf(sql.NullBool{}),
+	"myint": reflect.TypeOf(C11MyInt(0)), "mystr": reflect.TypeOf(C11MyStr("")), "myfloat": reflect.TypeOf(C11MyFloat(0)),
 }
 
+// named types (Kind int64 / string / float32)
+type (
+	C11MyInt   int64
+	C11MyStr   string
+	C11MyFloat float32
+)
+
 var (
-	c11PlainKinds = []string{"int", "int8", "int16", "int32", "int64", "uint", "uint8", "uint16", "uint32", "uint64", "float32", "float64", "string", "bool"}
+	c11PlainKinds = []string{"int", "int8", "int16", "int32", "int64", "uint", "uint8", "uint16", "uint32", "uint64", "float32", "float64", "string", "bool", "myint", "mystr", "myfloat"}
 	c11AllKinds   = append(append([]string{}, c11PlainKinds...),
 		"bytes", "time", "nullstring", "nullint64", "nullfloat64", "nullbool",
-		"*int64", "*string", "*float64", "*bool", "*int32", "*time", "*uint16",
+		"*int64", "*string", "*float64", "*bool", "*int32", "*time", "*uint16", "**int64", "**string", "*myint",
 		"int64", "string", "string", "int") // a few repeated: the common ones
 )
 
 func c11KindType(kind string) reflect.Type {
-	if strings.HasPrefix(kind, "*") {
-		return reflect.PointerTo(c11LeafTypes[kind[1:]])
+	t := c11LeafTypes[c11BaseKind(kind)]
+	for i := 0; i < len(kind) && kind[i] == '*'; i++ {
+		t = reflect.PointerTo(t)
 	}
-	return c11LeafTypes[kind]
+	return t
 }
 
-func c11BaseKind(kind string) string { return strings.TrimPrefix(kind, "*") }
+func c11BaseKind(kind string) string { return strings.TrimLeft(kind, "*") }
+
+func c11Numeric(kind string) bool {
+	b := c11BaseKind(kind)
+	return strings.HasPrefix(b, "int") || strings.HasPrefix(b, "uint") || strings.HasPrefix(b, "float") || b == "myint" || b == "myfloat"
+}
 
 func c11Nullable(kind string) bool { return strings.HasPrefix(kind, "null") }
 
@@ -194,8 +209,8 @@ func c11GenVal(r *rand.Rand, kind string, null bool) c11Val {
 		return c11Val{Exp: exp, Drv: drv, Text: fmt.Sprintf("%T(%v)", drv, drv)}
 	}
 	switch base {
-	case "int", "int8", "int16", "int32", "int64":
-		bits := map[string]int{"int": 64, "int8": 8, "int16": 16, "int32": 32, "int64": 64}[base]
+	case "int", "int8", "int16", "int32", "int64", "myint":
+		bits := map[string]int{"int": 64, "int8": 8, "int16": 16, "int32": 32, "int64": 64, "myint": 64}[base]
 		x := c11GenInt(r, bits)
 		exp := reflect.ValueOf(x).Convert(c11LeafTypes[base]).Interface()
 		return mk(exp, c11TextOrNative(r, x, strconv.FormatInt(x, 10)))
@@ -208,10 +223,13 @@ func c11GenVal(r *rand.Rand, kind string, null bool) c11Val {
 			return mk(exp, []byte(text))
 		}
 		return mk(exp, c11TextOrNative(r, int64(x), text))
-	case "float32":
+	case "float32", "myfloat":
 		f := float32(r.NormFloat64() * 1000)
 		if r.Intn(5) == 0 {
 			f = float32(r.Intn(100))
+		}
+		if base == "myfloat" {
+			return mk(C11MyFloat(f), c11TextOrNative(r, float64(f), strconv.FormatFloat(float64(f), 'g', -1, 32)))
 		}
 		return mk(f, c11TextOrNative(r, float64(f), strconv.FormatFloat(float64(f), 'g', -1, 32)))
 	case "float64":
@@ -220,12 +238,16 @@ func c11GenVal(r *rand.Rand, kind string, null bool) c11Val {
 			f = float64(r.Intn(100))
 		}
 		return mk(f, c11TextOrNative(r, f, strconv.FormatFloat(f, 'g', -1, 64)))
-	case "string":
+	case "string", "mystr":
 		s := c11Strings[r.Intn(len(c11Strings))]
-		if r.Intn(2) == 0 {
-			return mk(s, []byte(s))
+		var exp any = s
+		if base == "mystr" {
+			exp = C11MyStr(s)
 		}
-		return mk(s, s)
+		if r.Intn(2) == 0 {
+			return mk(exp, []byte(s))
+		}
+		return mk(exp, s)
 	case "bool":
 		b := r.Intn(2) == 0
 		switch r.Intn(4) {
@@ -280,10 +302,13 @@ func c11LeafEqual(kind string, got reflect.Value, exp any) (bool, string) {
 	case !got.IsValid():
 		g = reflect.Zero(bt).Interface()
 	case got.Kind() == reflect.Ptr:
-		if got.IsNil() {
+		for got.Kind() == reflect.Ptr && !got.IsNil() {
+			got = got.Elem()
+		}
+		if got.Kind() == reflect.Ptr {
 			g = reflect.Zero(bt).Interface()
 		} else {
-			g = got.Elem().Interface()
+			g = got.Interface()
 		}
 	default:
 		g = got.Interface()
@@ -322,6 +347,11 @@ type c11OrmCase struct {
 	// rows: instead of the end of the result); -1 none. CloseFault: driver.Rows.Close fails.
 	IterFault  int  `json:"iter_fault"`
 	CloseFault bool `json:"close_fault,omitempty"`
+	PrepFault  bool `json:"prep_fault,omitempty"` // path stmt: the driver's Prepare fails
+	// BadRow >= 0: the value of column BadCol in that row is text that cannot be converted
+	// into the (numeric) field it lands in
+	BadRow int `json:"bad_row"`
+	BadCol int `json:"bad_col,omitempty"`
 	Arg     bool           `json:"arg,omitempty"`
 	Cols    []c11Col       `json:"cols"`
 	Rows    [][]string     `json:"rows"` // printable
@@ -347,6 +377,13 @@ func c11GenStruct(r *rand.Rand, shape string) c11StructSpec {
 			}
 		}
 		s.Fields = append(s.Fields, f)
+	}
+	if shape == "tagged" && r.Intn(12) == 0 {
+		// db:"-": a field no column is ever generated for
+		pos := r.Intn(len(s.Fields) + 1)
+		fs := append([]c11FieldSpec{}, s.Fields[:pos]...)
+		fs = append(fs, c11FieldSpec{Name: "Dash", Tag: "-", Kind: "int64"})
+		s.Fields = append(fs, s.Fields[pos:]...)
 	}
 	switch shape {
 	case "untagged":
@@ -406,7 +443,8 @@ func c11GenOrmCase(r *rand.Rand) c11OrmCase {
 	c.ElemPtr = r.Intn(2) == 0
 	c.Strict = r.Intn(2) == 0
 	c.Ctx = r.Intn(2) == 0
-	c.Path = []string{"conn", "conn", "tx", "stmt", "sqlc"}[r.Intn(5)]
+	c.Path = []string{"conn", "conn", "tx", "stmt", "sqlc", "tx", "stmt", "rawtx", "sqlc-cached", "sqlc-index"}[r.Intn(10)]
+	c.BadRow = -1
 	c.Arg = r.Intn(2) == 0
 	nrows := 0
 	switch x := r.Intn(20); {
@@ -437,7 +475,7 @@ func c11GenOrmCase(r *rand.Rand) c11OrmCase {
 			var cols []c11Col
 			drop := r.Intn(5) < 2
 			for i, l := range leaves {
-				if drop && r.Intn(5) < 2 {
+				if (drop && r.Intn(5) < 2) || l.Col == "-" {
 					continue
 				}
 				name := l.Col
@@ -523,6 +561,27 @@ func c11GenOrmCase(r *rand.Rand) c11OrmCase {
 		c.vals = append(c.vals, row)
 		c.Rows = append(c.Rows, text)
 	}
+	if nrows > 0 && r.Intn(12) == 0 {
+		var cand []int
+		for j, col := range c.Cols {
+			if col.Leaf >= 0 && c11Numeric(col.Kind) {
+				cand = append(cand, j)
+			}
+		}
+		if len(cand) > 0 {
+			c.BadRow, c.BadCol = r.Intn(nrows), cand[r.Intn(len(cand))]
+			if r.Intn(2) == 0 {
+				c.BadRow = 0
+			}
+			bad := []driver.Value{"c11-not-a-number", []byte("12x"), "", "1e"}[r.Intn(4)]
+			c.vals[c.BadRow][c.BadCol] = c11Val{Exp: nil, Drv: bad, Text: fmt.Sprintf("BAD %T(%q)", bad, bad)}
+			c.Rows[c.BadRow][c.BadCol] = c.vals[c.BadRow][c.BadCol].Text
+		}
+	}
+	c.PrepFault = c.Path == "stmt" && r.Intn(15) == 0
+	if c.Method == "rows" && strings.HasPrefix(c.Path, "sqlc-") {
+		c.Path = "sqlc" // the cached forms are single-row
+	}
 	if c.IterFault >= 0 && c.Method == "rows" && c.Unspecified == "" {
 		// the statement is silent about a multi-row result whose iteration fails part-way
 		c.Unspecified = "rows-iteration-fault"
@@ -530,6 +589,7 @@ func c11GenOrmCase(r *rand.Rand) c11OrmCase {
 	if c.Unspecified != "" {
 		c.Path = "conn" // a panic in an unspecified case must not run into the transaction defect
 	}
+	c.PrepFault = c.PrepFault && c.Path == "stmt"
 	return c
 }
 
@@ -561,6 +621,41 @@ func c11Query(c *c11OrmCase, conn sqlx.Conn, dest any) error {
 		return s.QueryRowsPartialCtx(c11Bg, dest, q, args...)
 	}
 	switch c.Path {
+	case "rawtx":
+		// a transaction the caller began on the raw *sql.DB, wrapped by NewSessionFromTx
+		raw, err := conn.RawDB()
+		if err != nil {
+			return err
+		}
+		tx, err := raw.Begin()
+		if err != nil {
+			return err
+		}
+		defer tx.Rollback()
+		return onSession(sqlx.NewSessionFromTx(tx))
+	case "sqlc-cached":
+		cc := sqlc.NewConnWithCache(conn, c11PassCache{})
+		if c.Ctx {
+			return cc.QueryRowCtx(c11Bg, dest, "c11:key", func(_ context.Context, cn sqlx.Conn, v any) error {
+				dest = v
+				return onSession(cn)
+			})
+		}
+		return cc.QueryRow(dest, "c11:key", func(cn sqlx.Conn, v any) error {
+			dest = v
+			return onSession(cn)
+		})
+	case "sqlc-index":
+		cc := sqlc.NewConnWithCache(conn, c11PassCache{})
+		keyer := func(primary any) string { return fmt.Sprint("c11:pk:", primary) }
+		if c.Ctx {
+			return cc.QueryRowIndexCtx(c11Bg, dest, "c11:idx", keyer,
+				func(_ context.Context, cn sqlx.Conn, v any) (any, error) { dest = v; return 1, onSession(cn) },
+				func(_ context.Context, cn sqlx.Conn, v, _ any) error { dest = v; return onSession(cn) })
+		}
+		return cc.QueryRowIndex(dest, "c11:idx", keyer,
+			func(cn sqlx.Conn, v any) (any, error) { dest = v; return 1, onSession(cn) },
+			func(cn sqlx.Conn, v, _ any) error { dest = v; return onSession(cn) })
 	case "tx":
 		return conn.Transact(onSession)
 	case "sqlc":
@@ -679,6 +774,9 @@ func c11RunOrm(m *vk.M, idx int, c *c11OrmCase) (st c11OrmStats) {
 		res.CloseErr = errors.New("c11 fault rows-close")
 	}
 	rec.results = []c11Result{res}
+	if c.PrepFault {
+		rec.fault("prepare", 0, errors.New("c11 fault prepare"))
+	}
 	db, closeDB, err := c11Open(rec)
 	if err != nil {
 		m.Inconclusive("case %d: cannot open recording driver: %v", idx, err)
@@ -689,7 +787,23 @@ func c11RunOrm(m *vk.M, idx int, c *c11OrmCase) (st c11OrmStats) {
 	conn := sqlx.NewConnFromDB(db)
 	var qerr error
 	pv, panicked := vk.Recover(func() { qerr = c11Query(c, conn, dest.Interface()) })
-	if q, _ := rec.count("query"); q != 1 {
+	if c.PrepFault {
+		// the statement could not be prepared: nothing was queried, nothing can have been copied
+		switch {
+		case panicked:
+			m.Violate("C11:orm:stmt:prepare-error:panic", desc, "Prepare failed at the driver and the prepared-statement query panicked: %v", pv)
+			st.class = "violation"
+		case qerr == nil:
+			m.Violate("C11:orm:stmt:prepare-error-swallowed", desc, "Prepare failed at the driver but the prepared-statement query returned nil")
+			st.class = "violation"
+		default:
+			st.class = "stmt:prepare-error-returned"
+		}
+		return
+	}
+	if q, _ := rec.count("query"); q != 1 && !(q == 0 && qerr != nil && !panicked) {
+		// (a call that fails before it reaches the driver is judged by the oracle below:
+		// wherever a copy is expected its error is an unexpected-error violation)
 		m.Inconclusive("case %d: %d queries reached the driver (want 1); err=%v", idx, q, qerr)
 		st.class = "inconclusive"
 		return
@@ -757,7 +871,15 @@ func c11RunOrm(m *vk.M, idx int, c *c11OrmCase) (st c11OrmStats) {
 		return
 	}
 	isStruct := c.Shape != "prim"
-	fewer := isStruct && c.Strict && ncols < nleaves
+	ndash := 0
+	for _, l := range leaves {
+		if l.Col == "-" {
+			ndash++
+		}
+	}
+	// a db:"-" field may or may not count as a destination field
+	fewerMaybe := isStruct && c.Strict && ncols < nleaves
+	fewer := isStruct && c.Strict && ncols < nleaves-ndash
 	missingNames := false
 	if isStruct && c.Strict && c.Shape == "tagged" {
 		have := map[int]bool{}
@@ -795,6 +917,16 @@ func c11RunOrm(m *vk.M, idx int, c *c11OrmCase) (st c11OrmStats) {
 		}
 	}
 
+	// --- a value that cannot be converted into its field
+	if c.BadRow >= 0 && (c.BadRow == 0 || c.Method == "rows") && (c.IterFault < 0 || c.IterFault > c.BadRow) {
+		if qerr == nil {
+			violate("unconvertible-value-accepted", "row %d column #%d carries %s for a %s field, the query returned nil", c.BadRow, c.BadCol, c.Rows[c.BadRow][c.BadCol], c.Cols[c.BadCol].Kind)
+			return
+		}
+		st.class = "error:unconvertible-value"
+		return
+	}
+
 	// --- expected errors
 	switch {
 	case c.Method == "row" && nrows == 0:
@@ -802,7 +934,7 @@ func c11RunOrm(m *vk.M, idx int, c *c11OrmCase) (st c11OrmStats) {
 			violate("empty-result-not-ErrNotFound", "single-row query on an empty result returned nil")
 			return
 		}
-		if !errors.Is(qerr, sqlx.ErrNotFound) && !fewer {
+		if !errors.Is(qerr, sqlx.ErrNotFound) && !fewerMaybe {
 			violate("empty-result-not-ErrNotFound", "single-row query on an empty result returned %v, want ErrNotFound", qerr)
 			return
 		}
@@ -819,7 +951,7 @@ func c11RunOrm(m *vk.M, idx int, c *c11OrmCase) (st c11OrmStats) {
 			st.class = "strict:other-error"
 		}
 		return
-	case qerr != nil && (missingNames || (fewer && nrows == 0)):
+	case qerr != nil && (missingNames || fewerMaybe):
 		st.class = "strict:error-on-missing-column-names"
 		return
 	case qerr != nil:
@@ -1209,7 +1341,7 @@ func TestVerifC11RowFetchFault(t *testing.T) {
 					for _, nrows := range []int{0, 1, 3} {
 						for _, fault := range []int{0, -1} {
 							idx++
-							c := c11OrmCase{Shape: shape, Method: "row", Strict: strict, Ctx: ctx, Path: path, Arg: idx%2 == 0, IterFault: fault}
+							c := c11OrmCase{Shape: shape, Method: "row", Strict: strict, Ctx: ctx, Path: path, Arg: idx%2 == 0, IterFault: fault, BadRow: -1}
 							if shape == "prim" {
 								c.Prim = c11PlainKinds[idx%len(c11PlainKinds)]
 								c.Cols = []c11Col{{Name: "c", Leaf: 0, Kind: c.Prim}}
@@ -1260,4 +1392,29 @@ func TestVerifC11RowFetchFault(t *testing.T) {
 		m.Count("class_"+k, v)
 	}
 	m.Extra("exhaustive", true)
+}
+
+// c11PassCache is a cache.Cache that never holds anything: every Take runs the query.
+type c11PassCache struct{}
+
+func (c11PassCache) Del(...string) error                                      { return nil }
+func (c11PassCache) DelCtx(context.Context, ...string) error                  { return nil }
+func (c11PassCache) Get(string, any) error                                    { return sql.ErrNoRows }
+func (c11PassCache) GetCtx(context.Context, string, any) error                { return sql.ErrNoRows }
+func (c11PassCache) IsNotFound(err error) bool                                { return err == sql.ErrNoRows }
+func (c11PassCache) Set(string, any) error                                    { return nil }
+func (c11PassCache) SetCtx(context.Context, string, any) error                { return nil }
+func (c11PassCache) SetWithExpire(string, any, time.Duration) error           { return nil }
+func (c11PassCache) SetWithExpireCtx(context.Context, string, any, time.Duration) error {
+	return nil
+}
+func (c11PassCache) Take(val any, _ string, query func(any) error) error { return query(val) }
+func (c11PassCache) TakeCtx(_ context.Context, val any, _ string, query func(any) error) error {
+	return query(val)
+}
+func (c11PassCache) TakeWithExpire(val any, _ string, query func(any, time.Duration) error) error {
+	return query(val, time.Minute)
+}
+func (c11PassCache) TakeWithExpireCtx(_ context.Context, val any, _ string, query func(any, time.Duration) error) error {
+	return query(val, time.Minute)
 }
